@@ -237,6 +237,7 @@ func (c *Ctx) IsKnown(signature string) bool { _, ok := c.known[signature]; retu
 // Finish confirms violations by re-execution, writes evidence and replay files, prints verdict lines
 // and returns the process exit code.
 func (c *Ctx) Finish() int {
+	defer RunAtExit()
 	wall := time.Since(c.Start).Seconds()
 	confirmed := []*Replay{}
 	for _, sig := range c.violOrder {
@@ -350,6 +351,25 @@ func (c *Ctx) Finish() int {
 	return 0
 }
 
+var (
+	atExitMu sync.Mutex
+	atExit   []func()
+)
+
+// AtExit registers a cleanup that Finish / RunReplayFile run before the process ends.
+func AtExit(f func()) { atExitMu.Lock(); atExit = append(atExit, f); atExitMu.Unlock() }
+
+// RunAtExit runs (once) what AtExit registered.
+func RunAtExit() {
+	atExitMu.Lock()
+	fs := atExit
+	atExit = nil
+	atExitMu.Unlock()
+	for _, f := range fs {
+		f()
+	}
+}
+
 // Scratch returns a fresh scratch directory on tmpfs (removed by cleanup).
 func Scratch(prefix string) (dir string, cleanup func()) {
 	base := "/dev/shm"
@@ -368,6 +388,7 @@ func Scratch(prefix string) (dir string, cleanup func()) {
 
 // RunReplayFile re-executes a replay file once and prints the outcome; exit code 1 if it violates.
 func RunReplayFile(path string) int {
+	defer RunAtExit()
 	b, err := os.ReadFile(path)
 	if err != nil {
 		fmt.Fprintln(os.Stderr, "ENGINE-ERROR:", err)
